@@ -108,6 +108,15 @@ def distribute(
                 break
 
     # Sort computation by footprint, but add a random element to avoid sorting on names
+    # Computations pinned on an agent must fit in its capacity.
+    for agent in agentsdef:
+        pinned = sum(f for a, f in fixed_mapping.values() if a == agent.name)
+        if pinned > agent.capacity:
+            raise ImpossibleDistributionException(
+                f"Impossible Distribution, computations pinned on {agent.name} "
+                f"exceed its capacity"
+            )
+
     computations = [
         (computation_memory(n), n, None, random.random())
         for n in computation_graph.nodes
